@@ -3,6 +3,7 @@ import NgVerif.Model.Coords
 import NgVerif.Model.Tiling
 import NgVerif.Model.Shard
 import NgVerif.Model.Pyramid
+import NgVerif.Model.Scales
 import Mathlib.Tactic.Push
 import Mathlib.Tactic.NormNum
 import Mathlib.Tactic.Tauto
@@ -90,5 +91,27 @@ theorem routing_eq_model (m s p id : Nat) :
     Src.minishardKey (minishard_mask := Routing.minishardMask m) (hash_cmc := Routing.hash p id)
       = Routing.minishardKey m p id :=
   ⟨rfl, rfl, rfl, rfl, rfl⟩
+
+/-- the per-level arithmetic of the scale generator as written in the source is the model's -/
+theorem scales_arith_eq_model (s L d maxd e sum af : Nat) (hs : 1 ≤ s) (hbase : (sum + 1) / 3 ≤ e) :
+    Src.scaleFactor (scale_level := L) (delay := d) = ((Scales.fac L d : Nat) : Int) ∧
+    Src.scaleSize (sz := s) (axis_factor := ((Scales.fac L d : Nat) : Int)) = ((Scales.sizeAt s L d : Nat) : Int) ∧
+    Src.anisotropyFactor (max_delay := maxd) (delay := d) (scale_level := L) = ((maxd - d - L : Nat) : Int) ∧
+    Src.baseChunkExponent (target_chunk_exponent := e) (sum_anisotropy_factors := sum) = ((e - (sum + 1) / 3 : Nat) : Int) ∧
+    Src.chunkSizeOfExponent (base_chunk_exponent := ((e - (sum + 1) / 3 : Nat) : Int)) (anisotropy_factor := af)
+      = ((2 ^ ((e - (sum + 1) / 3) + af) : Nat) : Int) := by
+  refine ⟨?_, ?_, ?_, ?_, ?_⟩
+  · simp only [Src.scaleFactor, Scales.fac]
+    have : (max (0 : Int) ((L : Int) - (d : Int))).toNat = L - d := by omega
+    rw [this]; push_cast; rfl
+  · simp only [Src.scaleSize, Scales.sizeAt]
+    exact ceilDiv_eq_model s (Scales.fac L d) hs
+  · simp only [Src.anisotropyFactor]; omega
+  · simp only [Src.baseChunkExponent]
+    have h3 : (((sum + 1) / 3 : Nat) : Int) = ((sum : Int) + 1) / 3 := by push_cast; rfl
+    omega
+  · simp only [Src.chunkSizeOfExponent]
+    have : (((e - (sum + 1) / 3 : Nat) : Int) + (af : Int)).toNat = (e - (sum + 1) / 3) + af := by omega
+    rw [this]; push_cast; rfl
 
 end NgVerif.Source
